@@ -105,6 +105,37 @@ theorem truncated_head_rejected (major ai : Nat) (hm : major < 7) (hai : 24 ≤ 
     rcases (by omega : ai = 24 ∨ ai = 25 ∨ ai = 26 ∨ ai = 27) with e | e | e | e <;> simp [e]
   simp [item, h1, h2, h7, h28, h31, hr]
 
+/-- binary16 → binary64 keeps the sign for every pattern, zeros and subnormals included (the reference the `cbor-float16` stream compares
+    `decode_half`, `as<double>()` and `decode_cbor<double>` with) -/
+theorem half_sign_symmetric (h : Nat) (hh : h < 32768) : f16ToF64 (h + 32768) = f16ToF64 h + 2 ^ 63 := by
+  have h1 : (h + 32768) / 32768 = 1 := by omega
+  have h2 : h / 32768 = 0 := by omega
+  have h3 : (h + 32768) / 1024 % 32 = h / 1024 % 32 := by omega
+  have h4 : (h + 32768) % 1024 = h % 1024 := by omega
+  unfold f16ToF64
+  simp only [h1, h2, h3, h4]
+  split
+  · omega
+  · split
+    · split <;> omega
+    · omega
+
+/-- normal halves: the exponent is re-biased by 1008 and the ten fraction bits move to the top of the 52 -/
+theorem half_normal (s e m : Nat) (hs : s < 2) (he : 0 < e ∧ e < 31) (hm : m < 1024) :
+    f16ToF64 (s * 32768 + e * 1024 + m) = s * 2 ^ 63 + (e + 1008) * 2 ^ 52 + m * 2 ^ 42 := by
+  have h1 : (s * 32768 + e * 1024 + m) / 32768 = s := by omega
+  have h2 : (s * 32768 + e * 1024 + m) / 1024 % 32 = e := by omega
+  have h3 : (s * 32768 + e * 1024 + m) % 1024 = m := by omega
+  unfold f16ToF64
+  simp only [h1, h2, h3]
+  have : e ≠ 31 := by omega
+  have : e ≠ 0 := by omega
+  simp [*]
+
+example : f16ToF64 0x8001 = 0xbe70000000000000 := by decide
+example : f16ToF64 0x8000 = 0x8000000000000000 := by decide
+example : f16ToF64 0x03ff = 0x3f0ff80000000000 := by decide
+
 /-! ### kernel-evaluated instances (non-vacuity; formats other than CBOR) -/
 example : decode [0x83, 0x01, 0x20, 0xf6] = .ok (.arr [.int 1 "", .int (-1) "", .null]) [] := by rfl
 example : decode [0x9f, 0x01, 0xff] = .ok (.arr [.int 1 ""]) [] := by rfl
